@@ -72,7 +72,7 @@ fn valid_text(v: u8) -> String {
     // dynamic macros: the recording limit differs between the variants
     let limit = 3 + v;
     format!(
-        "(defcfg log-layer-changes no{opt} dynamic-macro-max-presses {limit})\n(defsrc a b c d e f g h i j k l q r m n o p)\n{z}(deflayer base{v} {o1} (layer-while-held nav) (one-shot 60 lsft) lrld lrld-next lrld-prev (lrld-num 1) (lrld-num 2) (lrld-num 3) (macro {o3} 20 {o3}) S-{o1} (layer-switch nav) _ _ (lrld-num 4) (dynamic-macro-record 0) dynamic-macro-record-stop (dynamic-macro-play 0))\n(deflayer nav {o2} _ _ lrld lrld-next lrld-prev (lrld-num 1) (lrld-num 2) (lrld-num 3) _ _ (layer-switch base{v}) _ _ _ _ _ _)\n"
+        "(defcfg log-layer-changes no{opt} dynamic-macro-max-presses {limit})\n(deflocalkeys-linux lkany 200)\n(defsrc a b c d e f g h i j k l q r m n o p)\n{z}(deflayer base{v} {o1} (layer-while-held nav) (one-shot 60 lsft) lrld lrld-next lrld-prev (lrld-num 1) (lrld-num 2) (lrld-num 3) (macro {o3} 20 {o3}) S-{o1} (layer-switch nav) _ _ (lrld-num 4) (dynamic-macro-record 0) dynamic-macro-record-stop (dynamic-macro-play 0))\n(deflayer nav {o2} _ _ lrld lrld-next lrld-prev (lrld-num 1) (lrld-num 2) (lrld-num 3) _ _ (layer-switch base{v}) _ _ _ _ _ _)\n"
     )
 }
 const OUTS: [(&str, &str, &str); 4] = [("x", "1", "m"), ("y", "2", "n"), ("z", "3", "o"), ("w", "4", "p")];
@@ -164,6 +164,9 @@ fn write_file(dir: &PathBuf, i: usize, c: &Content) {
     match c {
         Content::Valid(v) => std::fs::write(&p, valid_text(*v)).expect("write scratch config"),
         Content::BrokenSyntax => std::fs::write(&p, format!("{}(deflayer oops", valid_text(0))).expect("write scratch config"),
+        // rejected by the parser: an unknown action (file 0 and 2), or (file 1) a key name that only the
+        // valid configurations define with deflocalkeys - a freshly started kanata does not know it
+        Content::Rejected if i == 1 => std::fs::write(&p, valid_text(0).replace("(deflocalkeys-linux lkany 200)\n", "").replace("(one-shot 60 lsft)", "lkany")).expect("write scratch config"),
         Content::Rejected => std::fs::write(&p, valid_text(0).replace("(one-shot 60 lsft)", "(no-such-action 1)")).expect("write scratch config"),
         Content::Missing => {}
         Content::Unreadable => std::fs::create_dir_all(&p).expect("scratch dir"),
@@ -665,7 +668,7 @@ impl TypedProp for C15 {
     fn info(&self) -> PropInfo {
         PropInfo {
             level: "exploration",
-            rule: "three configuration files on the command line; contents from a family of eight valid configurations (same defsrc, four sets of outputs and first-layer names, each with and without a zippychord dictionary of one chord, an override of the output chord, override-release-on-activation on in every second one; layer-while-held, one-shot, a macro, an output chord, lrld / lrld-next / lrld-prev / lrld-num 1-4 keys, dynamic-macro record / stop / play keys and a recording limit that differs between the variants) or broken syntax / rejected by the parser / missing / a directory. Histories of 2-9 steps: rewrite a file, request a reload (plain, next, prev, num), request it while a key's output is held down (and probe notifications before the release), request it twice back-to-back, request file number 4 of 3 (kanata must keep running; whether the current file is reloaded is read from the notifications), request it while another layer is active (layer-while-held key held, or after a layer-switch), make kanata busy right before (layer tap, one-shot, running macro), probe. Run on the real Kanata::start_processing_loop thread with real-time events 8 ms apart and simulated output. Oracle: a reference model of the active content (unchanged by a failed reload, replaced by a successful one, not before the held key's output is released); every probe (two keys pressed together - the dictionary chord where there is one -, tap, layer-held tap, overridden output chord, a tap while it is held) must equal what a freshly started deterministic instance of the active content answers; a successful reload sends exactly ConfigFileReload(file) then LayerChange(first layer), a failed one nothing; nothing stays down; no panic in the processing thread. Non-trivial: a failed reload or a request while a key is held occurs. Distinct: hash of the case.".into(),
+            rule: "three configuration files on the command line; contents from a family of eight valid configurations (same defsrc, four sets of outputs and first-layer names, each with and without a zippychord dictionary of one chord, an override of the output chord, override-release-on-activation on in every second one; layer-while-held, one-shot, a macro, an output chord, lrld / lrld-next / lrld-prev / lrld-num 1-4 keys, dynamic-macro record / stop / play keys and a recording limit that differs between the variants) or broken syntax / rejected by the parser (an unknown action, or a key name that only the valid configurations define with deflocalkeys) / missing / a directory. Histories of 2-9 steps: rewrite a file, request a reload (plain, next, prev, num), request it while a key's output is held down (and probe notifications before the release), request it twice back-to-back, request file number 4 of 3 (kanata must keep running; whether the current file is reloaded is read from the notifications), request it while another layer is active (layer-while-held key held, or after a layer-switch), make kanata busy right before (layer tap, one-shot, running macro), probe. Run on the real Kanata::start_processing_loop thread with real-time events 8 ms apart and simulated output. Oracle: a reference model of the active content (unchanged by a failed reload, replaced by a successful one, not before the held key's output is released); every probe (two keys pressed together - the dictionary chord where there is one -, tap, layer-held tap, overridden output chord, a tap while it is held) must equal what a freshly started deterministic instance of the active content answers; a successful reload sends exactly ConfigFileReload(file) then LayerChange(first layer), a failed one nothing; nothing stays down; no panic in the processing thread. Non-trivial: a failed reload or a request while a key is held occurs. Distinct: hash of the case.".into(),
             assumptions: vec![
                 "only time-insensitive behaviour is compared (real-time thread): sequences of key events, not their times".into(),
                 "after a failed lrld-next / lrld-prev the following requests are absolute (lrld-num): the statement does not say whether the file index advanced".into(),
